@@ -223,7 +223,20 @@ type kill struct {
 	// AfterInput inputs and restarted
 	Graceful   bool `json:"graceful_stop,omitempty"`
 	AfterInput int  `json:"after_input,omitempty"`
+	// FailCommit: the n-th OnCommit call of this incarnation does not complete. FailMode
+	// "returns-false": the listener reports failure (Driver.Run returns an error);
+	// "blocks-until-cancelled": the listener waits for the block to be persisted, the node
+	// is shut down meanwhile (context cancelled), the listener returns false. Either way Run
+	// returns and its deferred Close really closes (and flushes) the store; the next
+	// incarnation starts at the height whose commit did not complete.
+	FailCommit int    `json:"fail_commit,omitempty"`
+	FailMode   string `json:"fail_mode,omitempty"`
 }
+
+const (
+	failFalse  = "returns-false"
+	failCancel = "blocks-until-cancelled"
+)
 
 const (
 	stEnd = iota
@@ -245,35 +258,41 @@ type incarnation struct {
 	inner       tendermint.StateMachine[V, H, A]
 
 	// everything below is guarded by c.mu
-	n              int
-	kill           kill
-	dead           bool
-	deadCh         chan struct{}
-	exited         chan struct{}
-	notify         chan struct{}
-	replaying      bool
-	effects        []effect
-	pending        []walRec
-	pendingEntries int
-	loaded         []walItem
-	replayed       []replayRec
-	tq             []types.Timeout
-	armed          int
-	consumed       int
-	commitsSeen    int
-	durViol        []effect
-	harnessErr     string
-	image          string
-	tornApplied    bool
-	runErr         error
-	panicVal       string
-	status         int
-	finalHeight    types.Height
-	lastPropQ      [2]int64 // last (height, round) asked of Validators.Proposer
-	trace          []string
-	trigger        string // log key of the input the state machine is processing (set by smWrap)
-	unlogged       []effect
-	staleTrig      bool // current trigger is a timeout whose actions carry no WriteWAL
+	n                 int
+	kill              kill
+	dead              bool
+	deadCh            chan struct{}
+	haltCh            chan struct{} // closed when the feeding side must stop: death or a blocked commit listener
+	haltOnce          sync.Once
+	onCommitCalls     int
+	commitFailed      bool
+	pendingSpec       []walRec
+	prunedUncommitted []string
+	exited            chan struct{}
+	notify            chan struct{}
+	replaying         bool
+	effects           []effect
+	pending           []walRec
+	pendingEntries    int
+	loaded            []walItem
+	replayed          []replayRec
+	tq                []types.Timeout
+	armed             int
+	consumed          int
+	commitsSeen       int
+	durViol           []effect
+	harnessErr        string
+	image             string
+	tornApplied       bool
+	runErr            error
+	panicVal          string
+	status            int
+	finalHeight       types.Height
+	lastPropQ         [2]int64 // last (height, round) asked of Validators.Proposer
+	trace             []string
+	trigger           string // log key of the input the state machine is processing (set by smWrap)
+	unlogged          []effect
+	staleTrig         bool // current trigger is a timeout whose actions carry no WriteWAL
 }
 
 var dbg = os.Getenv("C13_DEBUG") != ""
@@ -316,7 +335,9 @@ func (inc *incarnation) die() {
 	inc.dead = true
 	inc.pending = nil
 	inc.pendingEntries = 0
+	inc.pendingSpec = nil
 	close(inc.deadCh)
+	inc.haltOnce.Do(func() { close(inc.haltCh) })
 	c.mu.Unlock()
 }
 
@@ -335,6 +356,9 @@ func (w walWrap) SetWALEntry(entry starknet.WALEntry) error {
 	if err == nil {
 		c := inc.c
 		c.mu.Lock()
+		if !inc.dead {
+			inc.pendingSpec = append(inc.pendingSpec, walRec{h: entry.GetHeight(), key: key})
+		}
 		if !inc.dead && entry.GetHeight() > c.model.watermark {
 			inc.pending = append(inc.pending, walRec{h: entry.GetHeight(), key: key})
 			inc.pendingEntries++
@@ -354,6 +378,9 @@ func (w walWrap) DeleteWALEntries(height types.Height) error {
 	if err == nil {
 		c := inc.c
 		c.mu.Lock()
+		if !inc.dead {
+			inc.pendingSpec = append(inc.pendingSpec, walRec{prune: true, h: height})
+		}
 		if !inc.dead && height > c.model.watermark {
 			merged := false
 			for i := range inc.pending {
@@ -413,6 +440,7 @@ func (w walWrap) Flush() error {
 		c.mu.Lock()
 		if !inc.dead {
 			c.model.apply(inc.pending)
+			inc.applySpec()
 			inc.pending = nil
 			inc.pendingEntries = 0
 		}
@@ -461,11 +489,34 @@ func (w walWrap) Close() error {
 	if err == nil {
 		c.mu.Lock()
 		c.model.apply(inc.pending)
+		inc.applySpec()
 		inc.pending = nil
 		inc.pendingEntries = 0
 		c.mu.Unlock()
 	}
 	return err
+}
+
+// applySpec (c.mu held) advances the specification model at a successful flush/close:
+// like the mirror model, except that a prune record may only discard heights whose
+// commit has completed - the log of an uncommitted height must survive.
+func (inc *incarnation) applySpec() {
+	c := inc.c
+	committed := c.cfg.H0 + types.Height(len(c.commits)) // first height NOT committed
+	recs := make([]walRec, 0, len(inc.pendingSpec))
+	for _, r := range inc.pendingSpec {
+		if r.prune && r.h >= committed {
+			inc.prunedUncommitted = append(inc.prunedUncommitted,
+				fmt.Sprintf("prune<=%d became durable while the commit of height %d has not completed", r.h, committed))
+			if committed == 0 {
+				continue
+			}
+			r.h = committed - 1
+		}
+		recs = append(recs, r)
+	}
+	c.spec.apply(recs)
+	inc.pendingSpec = nil
 }
 
 // ---- broadcasters, commit listener
@@ -542,10 +593,25 @@ func (inc *incarnation) onVote(kind string, h types.Height, r types.Round, id *H
 
 type commitL struct{ inc *incarnation }
 
-func (l commitL) OnCommit(_ context.Context, h types.Height, v V) bool {
+func (l commitL) OnCommit(ctx context.Context, h types.Height, v V) bool {
 	inc := l.inc
-	inc.visible("commit", fmt.Sprintf("COMMIT h=%d v=%s", h, lab(v.Hash())))
 	c := inc.c
+	c.mu.Lock()
+	inc.onCommitCalls++
+	fail := inc.kill.FailCommit > 0 && inc.onCommitCalls == inc.kill.FailCommit
+	c.mu.Unlock()
+	if fail {
+		inc.visible("commit-failed", fmt.Sprintf("COMMIT h=%d v=%s (listener does not complete: %s)", h, lab(v.Hash()), inc.kill.FailMode))
+		c.mu.Lock()
+		inc.commitFailed = true
+		c.mu.Unlock()
+		if inc.kill.FailMode == failCancel {
+			inc.haltOnce.Do(func() { close(inc.haltCh) }) // the feeding side now shuts the node down
+			<-ctx.Done()
+		}
+		return false
+	}
+	inc.visible("commit", fmt.Sprintf("COMMIT h=%d v=%s", h, lab(v.Hash())))
 	c.mu.Lock()
 	c.commits = append(c.commits, commitRec{Inc: inc.idx, H: h, Val: lab(v.Hash())})
 	inc.commitsSeen++
@@ -718,6 +784,8 @@ type caseRun struct {
 	ownProp  map[hr]H
 	resolved map[int]input
 	model    walModel
+	spec     walModel // what must be in the log (prunes only of committed heights)
+	specAt   [][]walItem
 	votes    []voteRec
 	commits  []commitRec
 	incs     []*incarnation
@@ -767,7 +835,7 @@ func (c *caseRun) incarnate(inputs []idxInput, k kill) *incarnation {
 	inc := &incarnation{
 		c: c, idx: len(c.incs), root: c.root, kill: k,
 		startHeight: cfg.H0 + types.Height(c.completedCommits()),
-		deadCh:      make(chan struct{}), exited: make(chan struct{}), notify: make(chan struct{}, 1),
+		deadCh:      make(chan struct{}), haltCh: make(chan struct{}), exited: make(chan struct{}), notify: make(chan struct{}, 1),
 		replaying: true,
 	}
 	c.incs = append(c.incs, inc)
@@ -851,7 +919,7 @@ func (c *caseRun) incarnate(inputs []idxInput, k kill) *incarnation {
 		select {
 		case pvCh <- m:
 			return true
-		case <-inc.deadCh:
+		case <-inc.haltCh:
 		case <-inc.exited:
 		case <-wd.C:
 			inc.status = stWatchdog
@@ -884,7 +952,7 @@ func (c *caseRun) incarnate(inputs []idxInput, k kill) *incarnation {
 			}
 			select {
 			case <-inc.notify:
-			case <-inc.deadCh:
+			case <-inc.haltCh:
 				stopped = true
 				return false
 			case <-inc.exited:
@@ -909,7 +977,7 @@ func (c *caseRun) incarnate(inputs []idxInput, k kill) *incarnation {
 					select {
 					case propCh <- m:
 						return true
-					case <-inc.deadCh:
+					case <-inc.haltCh:
 					case <-inc.exited:
 					case <-wd.C:
 						inc.status = stWatchdog
@@ -918,7 +986,7 @@ func (c *caseRun) incarnate(inputs []idxInput, k kill) *incarnation {
 					select {
 					case pvCh <- m:
 						return true
-					case <-inc.deadCh:
+					case <-inc.haltCh:
 					case <-inc.exited:
 					case <-wd.C:
 						inc.status = stWatchdog
@@ -927,7 +995,7 @@ func (c *caseRun) incarnate(inputs []idxInput, k kill) *incarnation {
 					select {
 					case pcCh <- m:
 						return true
-					case <-inc.deadCh:
+					case <-inc.haltCh:
 					case <-inc.exited:
 					case <-wd.C:
 						inc.status = stWatchdog
@@ -966,6 +1034,8 @@ func (c *caseRun) incarnate(inputs []idxInput, k kill) *incarnation {
 		inc.status = stPanic
 	case inc.dead:
 		inc.status = stKilled
+	case inc.commitFailed:
+		inc.status = stEnd // Run returned (with the listener's failure or nil); Close has run
 	case inc.runErr != nil && !errors.Is(inc.runErr, context.Canceled):
 		inc.status = stDriverErr
 	default:
@@ -982,6 +1052,7 @@ func (c *caseRun) incarnate(inputs []idxInput, k kill) *incarnation {
 		}
 	}
 	c.expectAt = append(c.expectAt, c.model.expected())
+	c.specAt = append(c.specAt, c.spec.expected())
 	return inc
 }
 
